@@ -24,6 +24,7 @@ func (fc *fnCtx) specCtxFor(st *State, fr *frame) *specCtx {
 	for k, v := range fr.lets {
 		sc.vars[k] = v
 	}
+	sc.cells = fc.freeCells
 	return sc
 }
 
@@ -92,10 +93,25 @@ func (e *Engine) VerifyFunc(key string) {
 			}
 		}
 	}
+	var fvs []string
 	for _, fv := range fn.FreeVars {
 		v := fc.freshVal(st, fv.Name(), fv.Type())
 		st.env[fv] = v
 		fr.params[fv.Name()] = v
+		if _, isPtr := fv.Type().Underlying().(*types.Pointer); isPtr && v.S == SU {
+			// a captured variable is the address of a distinct live variable
+			st.pc = append(st.pc, not(eq(v.T, "nil")))
+			fvs = append(fvs, v.T)
+			// in contracts the variable's name denotes the current content of its cell
+			if fc.freeCells == nil {
+				fc.freeCells = map[string]Val{}
+			}
+			fc.freeCells[fv.Name()] = v
+			delete(fr.params, fv.Name())
+		}
+	}
+	if len(fvs) > 1 {
+		st.pc = append(st.pc, "(distinct "+strings.Join(fvs, " ")+")")
 	}
 	// positional aliases and names used by implemented interface contracts
 	fc.bindIfaceParams(fr)
@@ -391,7 +407,11 @@ func (fc *fnCtx) checkFrame(st *State, fr *frame, kind string) {
 						}
 					} else if l.Fun == "region" {
 						if id, ok := l.Args[0].(*Ident); ok {
-							allowed[id.Name] = append(allowed[id.Name], "*")
+							name := id.Name
+							if _, isModel := fc.e.contracts.Models[name]; isModel {
+								name = "M." + name
+							}
+							allowed[name] = append(allowed[name], "*")
 						}
 					}
 				case *FieldE:
